@@ -192,7 +192,7 @@ func populateDataTar(info *nfpm.Info, tw *tar.Writer) (instSize int64, err error
 					Typeflag: tar.TypeDir,
 					Format:   tar.FormatGNU,
 					ModTime:  modtime.Get(info.MTime),
-					Mode:     int64(file.FileInfo.Mode),
+					Mode:     int64(file.FileInfo.Mode & 0o7777),
 					Uname:    file.FileInfo.Owner,
 					Gname:    file.FileInfo.Group,
 				})
